@@ -1,5 +1,5 @@
 CONSTANTS
-  Plan <- PlanFull3
+  Plan <- PlanWide3
 INIT Init
 NEXT Next
 ACTION_CONSTRAINT Emit
